@@ -17,7 +17,8 @@ enum Kind {
     K_ADVANCE = 11,   // a: ms
     K_SETICON = 12,   // blob: new icon bytes (harness-side change of the platform's icon)
     K_SETFRIENDLY = 13,
-    K_FAULT = 14      // a: what, arg   (C18)
+    K_FAULT = 14,     // a: what, arg   (C18)
+    K_PBURST = 15     // a: first id, count   (generation-time marker, expanded into K_PROBE ops)
 };
 
 struct HCfg {
@@ -185,7 +186,7 @@ static inline void shadow_update(Shadow &sh, const Op &op, const Built &b) {
 // ------------------------------------------------------------------ generators
 struct HistWeights {
     int discover = 6, reset = 2, emit = 3, probe = 5, query = 3, qlt = 3, hello = 2, shell = 2, raw = 0,
-        tick = 0, advance = 1, seticon = 0;
+        tick = 0, advance = 1, seticon = 0, pburst = 0;
     int nstations = 3;
     bool commands_from_active_only = true;   // C05 domain restriction
     bool odd_tos = true;                     // Discover/Reset/QLT with ToS outside {0,1}
@@ -253,10 +254,16 @@ inline rc::Gen<Op> op_gen(const HistWeights &w) {
     if (w.tick) alts.push_back({(size_t)w.tick, rc::gen::exec([=] { Op o; o.kind = K_TICK; return o; })});
     if (w.advance) alts.push_back({(size_t)w.advance, rc::gen::exec([=] {
         Op o; o.kind = K_ADVANCE; o.a = {*bnd({0, 1, 999, 1000, 1001, 30000, 61000}, 0, 120000, 1, 1)}; return o; })});
+    if (w.pburst) alts.push_back({(size_t)w.pburst, rc::gen::exec([=] {
+        // marker op: expanded by expand_bursts() into `count` K_PROBE ops with consecutive identities (enough to cross the per-frame capacity)
+        Op o; o.kind = K_PBURST; o.a = {*range<int64_t>(100, 5000), *bnd({26, 27, 28, 29, 30, 72, 73, 74, 75}, 1, 120, 2, 1)}; return o; })});
     if (w.seticon) alts.push_back({(size_t)w.seticon, rc::gen::exec([=] { Op o; o.kind = K_SETICON; o.blob = *bytes(1, 700); return o; })});
     return gx::weighted<Op>(alts);
 }
-inline rc::Gen<int64_t> mtu_gen() { return bnd({576, 576, 577, 1500, 1500, 1514, 9000, 9216}, 576, 9216, 4, 1); }
+inline rc::Gen<int64_t> mtu_gen() {
+    // capacities are floor((MTU-34)/14), floor((MTU-34)/20), MTU-34: cover many residues, with weight on small MTUs where the capacities are cheap to reach
+    return rc::gen::weightedOneOf<int64_t>({{4, pick({576, 576, 577, 1500, 1500, 1514, 9000, 9216, 1492, 1280, 592, 594, 2304, 4352, 9212, 9214})}, {3, range<int64_t>(576, 700)}, {1, range<int64_t>(576, 9216)}});
+}
 inline rc::Gen<HCfg> cfg_gen() {
     return rc::gen::exec([] {
         HCfg h;
@@ -276,7 +283,16 @@ inline rc::Gen<HCfg> cfg_gen() {
         return h;
     });
 }
+inline std::vector<Op> expand_bursts(std::vector<Op> v) {
+    std::vector<Op> r;
+    for (auto &o : v) {
+        if (o.kind != K_PBURST) { r.push_back(o); continue; }
+        for (int64_t k = 0; k < o.arg(1); k++) { Op p; p.kind = K_PROBE; p.a = {o.arg(0) + k, (o.arg(0) + k) % 3, (o.arg(0) + k) & 1, 0}; r.push_back(p); }
+    }
+    return r;
+}
 inline rc::Gen<std::vector<Op>> ops_gen(const HistWeights &w, int lo, int hi) {
+    if (w.pburst) return rc::gen::map(rc::gen::mapcat(range<int>(lo, hi), [w](int n) { return rc::gen::resize(n, rc::gen::container<std::vector<Op>>(op_gen(w))); }), expand_bursts);
     // variable-length container so that rapidcheck can shrink by dropping steps; length in [0, n], n in [lo, hi]
     return rc::gen::mapcat(range<int>(lo, hi), [w](int n) { return rc::gen::resize(n, rc::gen::container<std::vector<Op>>(op_gen(w))); });
 }
